@@ -68,6 +68,9 @@ type runIn struct {
 	PortBuf   int     `json:"port_buf"`
 	MaxCycles uint64  `json:"max_cycles"`
 	SnapEvery int     `json:"snap_every"`
+	// Overlap lets the requester issue a request while an earlier one to the same bytes is
+	// still outstanding (program order then defines "the last written data")
+	Overlap bool `json:"overlap,omitempty"`
 }
 
 type input struct {
@@ -465,7 +468,7 @@ func runRun(in input, spec dram.Spec) (hx.Case, error) {
 			if d.Cycle() < r.At || !mem.CanSend() {
 				break
 			}
-			for a := r.Addr; a < r.Addr+uint64(r.Size); a++ {
+			for a := r.Addr; a < r.Addr+uint64(r.Size) && !in.Run.Overlap; a++ {
 				if inflight[a] > 0 {
 					break send
 				}
@@ -555,6 +558,7 @@ func runRun(in input, spec dram.Spec) (hx.Case, error) {
 		c.Tags = append(c.Tags, "banks:>=2")
 	}
 	c.Nontrivial = len(o.Events) >= 6 && len(banks) >= 2 && kinds[4] >= 2
+	c.Known = classifyRun(in)
 	return c, nil
 }
 
@@ -595,4 +599,21 @@ func dumpPresets() (hx.Case, error) {
 	c, err := runKernel(in, Presets()["Default"])
 	c.Obs = out
 	return c, err
+}
+
+// classifyRun recognises, from the INPUT alone, the run shape with a recorded finding: a
+// requester that does not wait between two accesses to the same bytes of which at least one
+// is a write (the DRAM scheduler keeps no same-address order).
+func classifyRun(in input) string {
+	if in.Run == nil || !in.Run.Overlap {
+		return ""
+	}
+	for j, r := range in.Run.Reqs {
+		for _, w := range in.Run.Reqs[:j] {
+			if (w.Write || r.Write) && w.Addr < r.Addr+uint64(r.Size) && r.Addr < w.Addr+uint64(w.Size) {
+				return "dram_no_same_address_ordering"
+			}
+		}
+	}
+	return ""
 }
